@@ -17,7 +17,7 @@ void vf::c14_case(Ctx &c) {
   struct O { uint8_t sub; int bytes; bool map, rd, wr; } OB[6] = {{1, 1, true, true, true}, {2, 2, true, true, true}, {3, 4, true, true, true}, {4, 1, true, true, false}, {5, 1, true, false, true}, {6, 1, false, true, true}};
   for (auto &o : OB) w.add_int(0x2100, o.sub, o.bytes, false, false, o.rd, o.wr, 0x11u * o.sub, o.map, false);
   int nsub = 4 + (int)c.t.below(5);
-  int tp = (int)c.t.below(CO_TPDO_N), rp = (int)c.t.below(CO_RPDO_N);      // which TPDO / RPDO channel the node has (parameter objects 1800h+tp, 1A00h+tp, 1400h+rp, 1600h+rp)
+  int tp = (int)c.t.below(CO_TPDO_N < 4 ? CO_TPDO_N : 4), rp = (int)c.t.below(CO_RPDO_N < 4 ? CO_RPDO_N : 4);      // which TPDO / RPDO channel the node has (parameter objects 1800h+tp, 1A00h+tp, 1400h+rp, 1600h+rp)
   uint32_t tbase = 0x180u + 0x100u * (uint32_t)tp + s.nodeid, rbase = 0x200u + 0x100u * (uint32_t)rp + s.nodeid;
   TpdoCfg tc = add_tpdo(w, tp, 0xC0000000u | tbase, 254, 0, 0, {}, nsub);
   RpdoCfg rc = add_rpdo(w, rp, 0x80000000u | rbase, 254, {}, nsub);
@@ -25,7 +25,7 @@ void vf::c14_case(Ctx &c) {
   // mode with-witness-tpdo (param 2): a second TPDO on another channel, valid, event-driven, mapping an asynchronous object of its own - nobody reconfigures it,
   // so whatever a client does to the first one, it is sent exactly when its object changes in OPERATIONAL and answers no SYNC
   const bool wit = c.param == 2; int tw = -1; uint32_t wbase = 0; int wit_probes = 0;
-  if (wit) { tw = (tp + 1 + (int)c.t.below(CO_TPDO_N - 1)) % CO_TPDO_N; wbase = 0x180u + 0x100u * (uint32_t)tw + s.nodeid;
+  if (wit) { tw = (tp + 1 + (int)c.t.below(3)) % 4; wbase = 0x180u + 0x100u * (uint32_t)tw + s.nodeid;
     w.add_int(0x2100, 7, 1, false, false, true, true, 0x77, true, true); add_tpdo(w, tw, 0x40000000u | wbase, 254, 0, 0, {MAPENT(0x2100, 7, 8)}, 1); }
   w.finish();
   TObj *ob[6]; for (int i = 0; i < 6; i++) ob[i] = w.lookup(0x2100, OB[i].sub);
